@@ -113,6 +113,9 @@ pub fn generate(g: &mut Gen, thorough: bool) {
                 if n <= 40 && !def.contains("grids=") && !def.contains(':') {
                     g.push(op_line(kind, &[], &[], def, "apply", dir, &data), "model", n >= 2);
                 }
+                if n <= 40 && def.contains("grids=") {
+                    g.push(super::opg_line(&super::shipped_grids_of(def), def, "apply", dir, &data), "model-grids", n >= 2);
+                }
             }
         }
     }
